@@ -7,7 +7,11 @@
       `solveIter_rejects_size`  a failed size / squareness guard is an error of class `size`
                                 and nothing is computed;
       `solveIter_rejects_itol`  `solve_bicg` with `itol ∉ {1, 2}` is an error of class `range`;
-      `solveIter_ok_iff`        the call returns a value exactly when all guards pass;
+      `solveIter_rejects_storage` inconsistent storage arrays: the error of the first sparse product
+                                is the error of the call (the code panics inside `multiply`);
+      `solveIter_ok_iff`        the call returns a value exactly when all guards pass and the first
+                                product does not panic (`solveIter_ok_iff_wf`: on a well-formed
+                                storage, exactly when the guards pass);
       `solveIter_iter_bound`    the reported iteration count never exceeds the budget;
       `solveIter_budget_zero`   with budget 0 the vector handed in comes back untouched.
   (E) over a field, for a well-formed square storage:
@@ -29,6 +33,11 @@ variable [Add K] [Sub K] [Mul K] [Neg K] [Div K] [Zero K] [One K] [BEq K] [Scala
 def Guards (s : Sp K) (m : Method) (b x0 : Array K) : Prop :=
   s.rows = b.size ∧ s.rows = s.cols ∧ b.size = x0.size ∧
     (∀ itol, m = .bicg itol → itol = 1 ∨ itol = 2)
+
+/-- the storage can be multiplied with the guess: the first product `A x0` of every method does not
+    panic (always true of a well-formed storage, `C07.multiply_spec`; on inconsistent public arrays
+    the code panics inside `multiply`) -/
+def Multipliable (s : Sp K) (x0 : Array K) : Prop := ∃ r, Sp.multiply s x0 = .ok r
 
 /-- the iteration that runs once the guards have passed -/
 def runMethod (o : VOps K (Array K)) (m : Method) (b x0 : Array K) (maxIter : Nat) (tol : K) :
@@ -60,25 +69,38 @@ theorem solveIter_rejects_size (s : Sp K) (m : Method) (b x0 : Array K) (maxIter
 
 theorem solveIter_rejects_itol (s : Sp K) (itol : Nat) (b x0 : Array K) (maxIter : Nat) (tol : K)
     (norm2 : Array K → K) (h1 : s.rows = b.size) (h2 : s.rows = s.cols) (h3 : b.size = x0.size)
-    (hi : itol ≠ 1 ∧ itol ≠ 2) :
+    (hm : Multipliable s x0) (hi : itol ≠ 1 ∧ itol ≠ 2) :
     solveIter s (.bicg itol) b x0 maxIter tol norm2 = .error .range := by
+  obtain ⟨r, hr⟩ := hm
   unfold solveIter
   have e1 : ¬ s.rows ≠ b.size := by simp [h1]
   have e2 : ¬ s.rows ≠ s.cols := by simp [h2]
   have e3 : ¬ b.size ≠ x0.size := by simp [h3]
-  simp only [e1, e2, e3, if_false]
+  simp only [e1, e2, e3, if_false, hr]
   exact if_pos hi
 
+/-- inconsistent storage: the error of the first product is the error of the call -/
+theorem solveIter_rejects_storage (s : Sp K) (m : Method) (b x0 : Array K) (maxIter : Nat) (tol : K)
+    (norm2 : Array K → K) (h1 : s.rows = b.size) (h2 : s.rows = s.cols) (h3 : b.size = x0.size)
+    (e : Err) (he : Sp.multiply s x0 = .error e) :
+    solveIter s m b x0 maxIter tol norm2 = .error e := by
+  unfold solveIter
+  have e1 : ¬ s.rows ≠ b.size := by simp [h1]
+  have e2 : ¬ s.rows ≠ s.cols := by simp [h2]
+  have e3 : ¬ b.size ≠ x0.size := by simp [h3]
+  simp only [e1, e2, e3, if_false, he]
+
 theorem solveIter_ok (s : Sp K) (m : Method) (b x0 : Array K) (maxIter : Nat) (tol : K)
-    (norm2 : Array K → K) (g : Guards s m b x0) :
+    (norm2 : Array K → K) (g : Guards s m b x0) (hm : Multipliable s x0) :
     solveIter s m b x0 maxIter tol norm2 =
       .ok (runMethod (arrOps s s.rows norm2) m b x0 maxIter tol) := by
   obtain ⟨h1, h2, h3, h4⟩ := g
+  obtain ⟨r, hr⟩ := hm
   unfold solveIter
   have e1 : ¬ s.rows ≠ b.size := by simp [h1]
   have e2 : ¬ s.rows ≠ s.cols := by simp [h2]
   have e3 : ¬ b.size ≠ x0.size := by simp [h3]
-  simp only [e1, e2, e3, if_false]
+  simp only [e1, e2, e3, if_false, hr]
   cases m with
   | cg => rfl
   | bicgstab => rfl
@@ -89,27 +111,47 @@ theorem solveIter_ok (s : Sp K) (m : Method) (b x0 : Array K) (maxIter : Nat) (t
     simp only [this, if_false]
     rfl
 
-/-- the call returns a value exactly when every guard passes -/
+/-- the call returns a value exactly when every guard passes and the storage can be multiplied -/
 theorem solveIter_ok_iff (s : Sp K) (m : Method) (b x0 : Array K) (maxIter : Nat) (tol : K)
     (norm2 : Array K → K) :
-    (∃ out, solveIter s m b x0 maxIter tol norm2 = .ok out) ↔ Guards s m b x0 := by
+    (∃ out, solveIter s m b x0 maxIter tol norm2 = .ok out) ↔
+      (Guards s m b x0 ∧ Multipliable s x0) := by
   constructor
   · rintro ⟨out, h⟩
     by_cases h1 : s.rows = b.size
     · by_cases h2 : s.rows = s.cols
       · by_cases h3 : b.size = x0.size
-        · refine ⟨h1, h2, h3, ?_⟩
+        · have hmul : Multipliable s x0 := by
+            cases hr : Sp.multiply s x0 with
+            | ok r => exact ⟨r, hr⟩
+            | error e =>
+              rw [solveIter_rejects_storage s m b x0 maxIter tol norm2 h1 h2 h3 e hr] at h
+              cases h
+          refine ⟨⟨h1, h2, h3, ?_⟩, hmul⟩
           intro itol hm
           subst hm
           by_contra hc
           have hi : itol ≠ 1 ∧ itol ≠ 2 := by omega
-          rw [solveIter_rejects_itol s itol b x0 maxIter tol norm2 h1 h2 h3 hi] at h
+          rw [solveIter_rejects_itol s itol b x0 maxIter tol norm2 h1 h2 h3 hmul hi] at h
           cases h
         · rw [solveIter_rejects_size s m b x0 maxIter tol norm2 (Or.inr (Or.inr h3))] at h; cases h
       · rw [solveIter_rejects_size s m b x0 maxIter tol norm2 (Or.inr (Or.inl h2))] at h; cases h
     · rw [solveIter_rejects_size s m b x0 maxIter tol norm2 (Or.inl h1)] at h; cases h
+  · rintro ⟨g, hm⟩
+    exact ⟨_, solveIter_ok s m b x0 maxIter tol norm2 g hm⟩
+
+/-- on a well-formed storage the products cannot panic: the call returns a value exactly when the
+    four guards pass -/
+theorem solveIter_ok_iff_wf {K : Type} [CommSemiring K] [Sub K] [Neg K] [Div K] [BEq K] [ScalarExt K]
+    [Transc K] {s : Sp K} (hs : WF s) (m : Method) (b x0 : Array K) (maxIter : Nat) (tol : K)
+    (norm2 : Array K → K) :
+    (∃ out, solveIter s m b x0 maxIter tol norm2 = .ok out) ↔ Guards s m b x0 := by
+  rw [solveIter_ok_iff]
+  constructor
+  · exact fun h => h.1
   · intro g
-    exact ⟨_, solveIter_ok s m b x0 maxIter tol norm2 g⟩
+    obtain ⟨y, hy, _⟩ := Ohsl.Props.C07.multiply_spec hs x0 (by have := g.1; have := g.2.1; have := g.2.2.1; omega)
+    exact ⟨g, y, hy⟩
 
 theorem runMethod_iter_bound (o : VOps K (Array K)) (m : Method) (b x0 : Array K) (maxIter : Nat)
     (tol : K) : (runMethod o m b x0 maxIter tol).iters ≤ maxIter := by
@@ -124,7 +166,7 @@ theorem solveIter_iter_bound (s : Sp K) (m : Method) (b x0 : Array K) (maxIter :
     (norm2 : Array K → K) (out : KOut K (Array K))
     (h : solveIter s m b x0 maxIter tol norm2 = .ok out) : out.iters ≤ maxIter := by
   have g := (solveIter_ok_iff s m b x0 maxIter tol norm2).1 ⟨out, h⟩
-  rw [solveIter_ok s m b x0 maxIter tol norm2 g] at h
+  rw [solveIter_ok s m b x0 maxIter tol norm2 g.1 g.2] at h
   cases h
   exact runMethod_iter_bound _ m b x0 maxIter tol
 
@@ -133,7 +175,7 @@ theorem solveIter_budget_zero (s : Sp K) (m : Method) (b x0 : Array K) (tol : K)
     (norm2 : Array K → K) (out : KOut K (Array K))
     (h : solveIter s m b x0 0 tol norm2 = .ok out) : out.x = x0 := by
   have g := (solveIter_ok_iff s m b x0 0 tol norm2).1 ⟨out, h⟩
-  rw [solveIter_ok s m b x0 0 tol norm2 g] at h
+  rw [solveIter_ok s m b x0 0 tol norm2 g.1 g.2] at h
   cases h
   cases m with
   | cg => exact (budget_zero_untouched _ b x0 tol 1).1
@@ -151,15 +193,15 @@ attribute [local instance] Ohsl.Alg.scalarExtField
     square storage of order `n`, whichever of the four methods is called (BiCG with either error
     measure), if the call returns a value that reports success then the returned array has size `n`
     and its TRUE relative residual `‖b − s·x‖ / guard ‖b‖` passed the code's test with `tol`
-    (`≤ tol`; BiCGSTAB's half-step exit tests `< tol`, the second disjunct). -/
+    (`≤ tol`; BiCGSTAB's full-step exit is the strict test `< tol`, the second disjunct). -/
 theorem solveIter_success_sound {s : Sp K} {n : Nat} (h : SqWF s n) (norm2 : Array K → K)
     (m : Method) (b x0 : Array K) (maxIter : Nat) (tol : K) (out : KOut K (Array K))
     (hrun : solveIter s m b x0 maxIter tol norm2 = .ok out) (hok : out.ok = true) :
     out.x.size = n ∧
       (Transc.le (norm2 (trueResid s n b out.x) / guardNorm (norm2 b)) tol = true ∨
         stabLt (norm2 (trueResid s n b out.x) / guardNorm (norm2 b)) tol = true) := by
-  have g := (solveIter_ok_iff s m b x0 maxIter tol norm2).1 ⟨out, hrun⟩
-  rw [solveIter_ok s m b x0 maxIter tol norm2 g] at hrun
+  obtain ⟨g, gm⟩ := (solveIter_ok_iff s m b x0 maxIter tol norm2).1 ⟨out, hrun⟩
+  rw [solveIter_ok s m b x0 maxIter tol norm2 g gm] at hrun
   obtain ⟨h1, h2, h3, h4⟩ := g
   have hb : b.size = n := by rw [← h1, h.rows]
   have hx : x0.size = n := by rw [← h3, hb]
